@@ -85,9 +85,10 @@ def _mk_applied(clsname, method, on):
         __doc__ = f"{clsname}.{method}: true iff the {on} was processed by the item with the configured identifier"
         id = f"C13.{clsname}.{method}"
         target = f"{ST}:{clsname}.{method}"
-        props = ("C13",)
+        props = ("C13", "C08", "C15")
+        cases = ("no-pipeline", "pipeline-applied-it-to-something", "pipeline-did-not")
 
-        def args(self, I):
+        def args(self, I, case):
             got = {}
 
             def wpb(I2, a, k):
@@ -96,7 +97,10 @@ def _mk_applied(clsname, method, on):
                 return got["r"]
             pid = I.fresh("processing_item_id", "str")
             obj = SObj(I.E.index.lookup("sigma.rule.rule:SigmaRule" if on == "rule" else "sigma.rule.detection:SigmaDetectionItem"), {"was_processed_by": NativeFn("was_processed_by", wpb)}, lazy=True)
-            me = SObj(I.E.index.lookup(f"{ST}:{clsname}"), {"processing_item_id": pid, "_pipeline": None}, lazy=True)
+            # the pipeline's own book-keeping (identifiers applied to whatever it processed last, incl. what nested pipelines copied into it) says
+            # nothing about THIS object
+            pipe = None if case == "no-pipeline" else SObj("Pipeline", {"applied_ids": {pid} if case.startswith("pipeline-applied") else set(), "applied": [True], "field_name_applied_ids": {}})
+            me = SObj(I.E.index.lookup(f"{ST}:{clsname}"), {"processing_item_id": pid, "_pipeline": pipe}, lazy=True)
             return {"self": me, "args": [obj], "got": got, "pid": pid}
 
         def post(self, I, inp, r):
